@@ -2,12 +2,14 @@ package checks
 
 import (
 	"fmt"
+	"os"
 	"strings"
 	"time"
 	"unicode/utf8"
 
 	jd "github.com/josephburnett/jd/v2"
 
+	"verif/mc/cli"
 	"verif/mc/engine"
 	"verif/mc/gen"
 	"verif/mc/impl"
@@ -162,6 +164,11 @@ var yamlWords = []string{"true", "yes", "on", "y", "n", "no", "off", "null", "~"
 	"2001-01-01", "<<", "=", "!!str", "&a", "*a", "|", ">", "%", "---", "...", "- x", "a: b", " #", "a ", " a", "", "0", "-0", "1.0", "+1", "TRUE", "Yes",
 	"line1\nline2", "tab\there", "trailing\n", "\nleading", "[1]", "{a: 1}", "'q'", "\"q\"", "#c", "a #c", "? x", ": x", "@at", "`bt", "é", "😀", " "}
 
+// c02Phrases: multi-character strings that a text-level post-processing step can mistake for something else:
+// spelled-out escapes, printf verbs, the six-character spellings of every JSON escape, a line of more than 64 KiB.
+var c02Phrases = []string{"\\u003c", "a \\u003cb\\u003e \\u0026", "\\u0026amp;", "\\n", "\\\\", "\\u0000", "\\\"", "50%", "100%d done %s", "%!f(MISSING)", "%%", "%v%s%d", "&lt;", "&amp;",
+	"http://example.com/a/b?x=1&y=2", strings.Repeat("z", 70000)}
+
 func c02Strings(tier string) []string {
 	var out []string
 	for r := rune(0); r <= 0xFFFF; r++ {
@@ -179,6 +186,7 @@ func c02Strings(tier string) []string {
 		}
 	}
 	out = append(out, yamlWords...)
+	out = append(out, c02Phrases...)
 	if tier == "thorough" {
 		// every BMP rune next to a letter (both sides), every special symbol next to every
 		// printable ASCII character, and all three-symbol strings over twelve special symbols
@@ -256,7 +264,7 @@ func init() {
 			return []string{"hunks/single", "hunks/pair", "hunks/triple", "string/", "diff/multi-hunk", "diff/single-hunk"}
 		},
 		Assume: []string{"well-formedness of hand-built hunks is the grammar in DESIGN.md section 6 (C02), fixed in the model", "sequences are strict hunks followed by merge hunks (metadata is inherited forward in the text format)"},
-		Budget: budget(5*time.Minute, 45*time.Minute),
+		Budget: budget(8*time.Minute, 45*time.Minute),
 	})
 }
 
@@ -303,6 +311,18 @@ func enumC02(tier string, e *engine.Emitter) {
 			continue
 		}
 		e.Emit(engine.Case{Kind: "c02s", Leg: "strings", A: ref.JSON(s)})
+	}
+	// `jd a b` printed by the real process and applied with `jd -p`
+	for _, bin := range []string{"jd-v2", "jd-top"} {
+		for _, fl := range []string{"", "-set", "-mset"} {
+			for _, a := range c02CLIDocs {
+				for _, b := range c02CLIDocs {
+					if a != b {
+						e.Emit(engine.Case{Kind: "c02cli:" + bin, Leg: "cli/" + bin, A: a, B: b, X: fl})
+					}
+				}
+			}
+		}
 	}
 	for _, o := range c02Opts(tier) {
 		for _, l := range c02Legs(tier, o) {
@@ -418,7 +438,60 @@ func sameEffect(mk func() jd.Diff, text string, targets []string, res *engine.Re
 	return ""
 }
 
+var c02CLIDocs = []string{`{"a":1,"b":[1,2,3]}`, `{"a":"100% done %s %d","b":[1,"50%",3]}`, `["%!f(MISSING)","%%","%v"]`, `["\\u003c","<&>","\u2028"]`, `{"k":"` + strings.Repeat("y", 70000) + `"}`,
+	`[1,[2,2],{"x":"é\ttab"}]`, `"plain"`, `[]`, `{"a":{"b":{"c":["%d",1e21]}}}`}
+
+// runC02CLI: the text printed by `jd a b` is the library's rendering, and `jd -p` applied to it turns a into b.
+func runC02CLI(c *engine.Case) engine.Result {
+	bin := strings.TrimPrefix(c.Kind, "c02cli:")
+	o := impl.Options(flagsToOptName(c.X))
+	res := engine.Result{Traces: 1, Nontrivial: true, Bucket: "cli/" + o.Name}
+	dir := cli.TempDir()
+	defer os.RemoveAll(dir)
+	fa := cli.WriteFile(dir, "a.json", c.A)
+	fb := cli.WriteFile(dir, "b.json", c.B)
+	flags := strings.Fields(c.X)
+	out := cli.Run(dir, cli.Bin(bin), append(append([]string{}, flags...), fa, fb), nil)
+	res.Transitions++
+	var want string
+	if p := impl.Guard(func() { want = impl.Read(c.A).Diff(impl.Read(c.B), o.Opts...).Render() }); p != "" {
+		res.Violation = "library: " + p
+		return res
+	}
+	clip := func(s string) string {
+		if len(s) > 300 {
+			return s[:300] + "..."
+		}
+		return s
+	}
+	switch {
+	case out.Timeout:
+		res.Violation = "CLI did not terminate"
+	case want == "" && out.Exit == 0:
+		res.Bucket += "/equal"
+		return res
+	case out.Exit != 1:
+		res.Violation = fmt.Sprintf("jd %s a b: exit status %d, stderr %q", c.X, out.Exit, clip(firstLine(out.Stderr)))
+	case out.Stdout != want:
+		res.Violation = fmt.Sprintf("jd %s a b printed %q, the library renders the diff as %q", c.X, clip(out.Stdout), clip(want))
+	}
+	if res.Violation != "" {
+		return res
+	}
+	fd := cli.WriteFile(dir, "d.diff", out.Stdout)
+	back := cli.Run(dir, cli.Bin(bin), append(append([]string{"-p"}, flags...), fd, fa), nil)
+	res.Transitions++
+	got, perr := ref.Parse(back.Stdout)
+	if back.Exit != 0 || perr != nil || !ref.Equal(got, ref.MustParse(c.B), o.Reading) {
+		res.Violation = fmt.Sprintf("jd -p %s applied to the printed diff: exit %d, output %q (stderr %q), not b", c.X, back.Exit, clip(back.Stdout), clip(firstLine(back.Stderr)))
+	}
+	return res
+}
+
 func runC02(c *engine.Case) engine.Result {
+	if strings.HasPrefix(c.Kind, "c02cli:") {
+		return runC02CLI(c)
+	}
 	res := engine.Result{}
 	var fail, text string
 	bucket := ""
@@ -446,13 +519,19 @@ func runC02(c *engine.Case) engine.Result {
 		case c.Kind == "c02s":
 			s := ref.MustParse(c.A).(string)
 			bucket = "string/"
+			ss := s + s
+			if len(s) > 2000 {
+				// Render aligns a replaced string with its replacement character by character
+				// (a len x len table): keep the replacement short for very long strings
+				ss = "q"
+			}
 			shapes := [][]ref.Hunk{
 				{{Path: []ref.PE{ref.K("k")}, Remove: []V{s}, Add: []V{map[string]interface{}{"x": []interface{}{s}}}}},
-				{{Path: []ref.PE{ref.I(0)}, Before: []V{ref.Void{}}, Remove: []V{s}, Add: []V{s + s, "z"}, After: []V{s}}},
+				{{Path: []ref.PE{ref.I(0)}, Before: []V{ref.Void{}}, Remove: []V{s}, Add: []V{ss, "z"}, After: []V{s}}},
 				{{Path: []ref.PE{ref.K(s)}, Add: []V{1.0}}},
 				{{Path: []ref.PE{ref.K("k"), ref.K(s)}, Remove: []V{s}}},
 				{{Path: []ref.PE{ref.SetKeysPE(map[string]V{"id": s}), ref.K("v")}, Remove: []V{1.0}, Add: []V{2.0}}},
-				{{Path: []ref.PE{ref.SetPE()}, Remove: []V{s}, Add: []V{"q" + s}}},
+				{{Path: []ref.PE{ref.SetPE()}, Remove: []V{s}, Add: []V{"q" + ss[len(ss)/2:]}}},
 				{{Path: []ref.PE{ref.K(s)}, Add: []V{s}, Merge: true}},
 			}
 			for _, hs := range shapes {
@@ -495,7 +574,11 @@ func runC02(c *engine.Case) engine.Result {
 			}
 			aV := ref.MustParse(c.A)
 			targets := []string{c.A, c.B}
-			for i, e := range gen.Edits(aV, []V{1.0, "a"}, []string{"a", "z"}) {
+			var near []V
+			if len(c.A) <= 400 { // edits of big documents cost O(n^2) and add nothing to a text round trip
+				near = gen.Edits(aV, []V{1.0, "a"}, []string{"a", "z"})
+			}
+			for i, e := range near {
 				if i >= 12 {
 					break
 				}
